@@ -168,9 +168,10 @@ func codecCmd(args []string) int {
 	}
 	// frame classes
 	emitCase := func(tb byte, registered bool, lc, bc string, n, avail int, data []byte) {
-		ok, consumed, maxReq, panicked, _ := decodeCounting(data)
+		ok, consumed, maxReq, panicked, m := decodeCounting(data)
+		nilmsg := ok && m == nil // neither a message nor an error
 		sink.Emit("drv", "codec.case", "type", int(tb), "registered", registered, "len_class", lc, "body_class", bc, "n", n, "avail", avail,
-			"ok", ok, "consumed", consumed, "max_read", maxReq, "panicked", panicked)
+			"ok", ok && !nilmsg, "consumed", consumed, "max_read", maxReq, "panicked", panicked, "nilmsg", nilmsg)
 		stats["case"]++
 	}
 	// the frame classes are decided twice: on the bare codec, and again after a real frps and a real frpc service have been
@@ -198,6 +199,9 @@ func codecCmd(args []string) int {
 			emitCase(tb, true, "small", "wrong-shape", len(ws), len(ws), frame(tb, int64(len(ws)), ws))
 			ij := []byte(`{"a":`)
 			emitCase(tb, true, "small", "invalid-json", len(ij), len(ij), frame(tb, int64(len(ij)), ij))
+			for _, nl := range []string{"null", " null\n"} {
+				emitCase(tb, true, "small", "null", len(nl), len(nl), append(frame(tb, int64(len(nl)), []byte(nl)), tail...))
+			}
 			half := len(valid) / 2
 			emitCase(tb, true, "small", "truncated", len(valid), half, frame(tb, int64(len(valid)), valid[:half]))
 			emitCase(tb, true, "small", "trailing", len(valid), len(valid), append(frame(tb, int64(len(valid)), valid), tail...))
@@ -262,6 +266,9 @@ func codecCmd(args []string) int {
 		"negative-length":   frame('o', -5, bytes.Repeat([]byte{0}, 32)),
 		"oversize-length":   frame('o', 1<<40, bytes.Repeat([]byte{0}, 32)),
 		"bad-json-login":    frame('o', 5, []byte(`{"a":`)),
+		"null-login":        frame('o', 4, []byte("null")),
+		"null-workconn":     frame('w', 4, []byte("null")),
+		"null-visitor":      frame('v', 4, []byte("null")),
 		"unexpected-ping":   encode(&msg.Ping{}),
 		"unexpected-proxy":  encode(&msg.NewProxy{ProxyName: "x", ProxyType: "tcp"}),
 		"unexpected-req":    encode(&msg.ReqWorkConn{}),
@@ -309,6 +316,8 @@ func codecCmd(args []string) int {
 		"after-wrong-shape":  frame('p', 7, []byte("[1,2,3]")),
 		"after-wrong-type":   frame('p', int64(len(`{"proxy_name":5}`)), []byte(`{"proxy_name":5}`)),
 		"after-empty-body":   frame('h', 0, nil),
+		"after-null-ping":    frame('h', 4, []byte("null")),
+		"after-null-proxy":   frame('p', 4, []byte("null")),
 		"after-not-json":     frame('c', 9, []byte("not-json!")),
 		"after-unknown-type": frame('Z', 2, []byte("{}")),
 		"after-negative-len": frame('h', -3, nil),
